@@ -73,7 +73,13 @@ void Reference::repeat_and_transform(Array<Vec2>& point_array) const {
     Array<Vec2> offsets = {};
 
     if (repetition.type != RepetitionType::None) {
-        repetition.get_extrema(offsets);
+        if (repetition.type == RepetitionType::Explicit) {
+            // The 4 axis-aligned extrema of an arbitrary list of offsets do not span its convex
+            // hull (needed when this reference is itself rotated by a parent): use them all.
+            repetition.get_offsets(offsets);
+        } else {
+            repetition.get_extrema(offsets);
+        }
         point_array.ensure_slots((offsets.count - 1) * num_points);
         point_array.count *= offsets.count;
     } else {
